@@ -116,6 +116,40 @@ func (e *Engine) verifyContract(ct *Contract) (res *FnResult) {
 			res.Notes.Assumed["environment assumption of "+ct.Key+" ["+cl.Label+"]: "+cl.Src] = true
 		}
 	}
+	if ik := ct.Opts["implements"]; ik != "" {
+		// the preconditions of the interface method are established at every invoke site
+		// (call.requires obligations there), so the implementation may rely on them
+		ict := e.CS.ByKey[ct.PkgPath+"."+ik]
+		if ict == nil {
+			ict = e.CS.ByKey[ik]
+		}
+		if ict != nil {
+			ienv := *env
+			ienv.PkgPath = ict.PkgPath
+			ienv.Vars = map[string]TVal{}
+			ienv.Macros = map[string]SExpr{}
+			for _, l := range ict.Lets {
+				ienv.Macros[l.Name] = l.Expr
+			}
+			for i, p := range fn.Params {
+				if i == 0 {
+					ienv.Vars["self"] = TVal{T: fc.TE.Box(p.Type(), fc.vals[p].T)}
+					continue
+				}
+				ienv.Vars[p.Name()] = TVal{T: fc.vals[p].T, Ty: p.Type()}
+			}
+			if isig := e.ifaceSig(ct.PkgPath, ik); isig != nil {
+				for i := 0; i < isig.Params().Len() && i+1 < len(fn.Params); i++ {
+					p := fn.Params[i+1]
+					ienv.Vars[isig.Params().At(i).Name()] = TVal{T: fc.vals[p].T, Ty: p.Type()}
+				}
+			}
+			for _, cl := range ict.Requires {
+				t := fc.evalClause(&ienv, cl)
+				S.Assume(t, "requires "+cl.Label+" of "+ik+" (checked at the invoke sites)")
+			}
+		}
+	}
 	o := fc.oblige(st, "canary", "requires", "", TFalse, "the preconditions are satisfiable")
 	o.Canary = true
 
@@ -152,6 +186,10 @@ func (e *Engine) verifyContract(ct *Contract) (res *FnResult) {
 			}
 			ob := fc.oblige(exit, "ensures", lab, "", t, cl.Src)
 			ob.Known = cl.Known
+			if cl.Known == "" {
+				// assert-then-assume: later clauses may rely on the ones before them
+				S.Assume(Implies(exit.PC, t), "ensures "+lab+" (obligation above)")
+			}
 		}
 	}
 	// refinement: the function also satisfies the postconditions of the interface method it implements
@@ -262,6 +300,9 @@ func (e *Engine) verifyLemma(ct *Contract, res *FnResult, te *TypeEnv, S *Script
 		t := fc.evalClause(env, cl)
 		ob := &Obligation{Name: fmt.Sprintf("%s#ensures[%s]", res.FullName, cl.Label), Func: res.FullName, Kind: "ensures", Label: cl.Label, Goal: t, Serves: ct.Serves, Clause: cl.Src, Known: cl.Known}
 		S.Oblige(ob)
+		if cl.Known == "" {
+			S.Assume(t, "ensures "+cl.Label+" (obligation above)")
+		}
 	}
 }
 
@@ -342,6 +383,11 @@ func (e *Engine) lemmaFormula(fc *FnCtx, ct *Contract, indVar string, bound Term
 			req = append(req, env.boolT(cl.Expr))
 		}
 		for _, cl := range ct.Ensures {
+			if strings.HasPrefix(cl.Label, "hint-") {
+				// an intermediate step of the lemma's own proof: proved, used by the clauses after
+				// it, not part of the exported statement (keeps its terms out of trigger matching)
+				continue
+			}
 			ens = append(ens, env.boolT(cl.Expr))
 		}
 		body := Implies(And(append(guards, req...)...), And(ens...))
@@ -372,6 +418,10 @@ func (e *Engine) lemmaFormula(fc *FnCtx, ct *Contract, indVar string, bound Term
 
 // ifaceSig: the signature of interface method "(I).M" declared in package pkgPath.
 func (e *Engine) ifaceSig(pkgPath, key string) *types.Signature {
+	if j := strings.Index(key, ".("); j > 0 {
+		// full key: <package path>.(I).M
+		pkgPath, key = key[:j], key[j+1:]
+	}
 	if !strings.HasPrefix(key, "(") {
 		return nil
 	}
